@@ -360,13 +360,13 @@ def run(chk):
         pairs = G.sweep_cases(pairs=True)
         chk.dist("sweep-fault-pairs", len(pairs))
         cases += pairs
-    n = 2500 if chk.tier == "quick" else 40000
+    n = 2500 if chk.tier == "quick" else 30000
     rng = chk.rng
     cases += [G.gen_case(rng) for _ in range(n)]
     ok = run_cases(chk, cases, "main")
     chk.obligation("corr:routing", "correspondence", ok)
     # the raw front door (Front.run_raw): ill-typed and well-typed raw arguments
-    raw_cases = [G.gen_raw_case(rng) for _ in range(1200 if chk.tier == "quick" else 20000)]
+    raw_cases = [G.gen_raw_case(rng) for _ in range(1200 if chk.tier == "quick" else 8000)]
     chk.obligation("corr:front_door", "correspondence", run_cases(chk, raw_cases, "raw"))
     constants_stage(chk)
     import c09_validation
